@@ -28,9 +28,11 @@ Theorem sstep_refines hist s c :
       o = map (fun e => ONotify (snd e) v) (filter (fun e => fst e =? k) (obl s)) /\
       (forall id, ~ In (k, id) (obl s'))
   | Reopen => o = [] /\ obl s' = []
+  | Cancel id => o = [] /\ (forall k, ~ In (k, id) (obl s')) /\
+                 (forall k id', id' <> id -> (In (k, id') (obl s') <-> In (k, id') (obl s)))   (* the others keep waiting *)
   end.
 Proof.
-  intros [Hdb Hob]. destruct c as [k v|k id|k id|]; simpl.
+  intros [Hdb Hob]. destruct c as [k v|k id|k id| |id]; simpl.
   - split; [split|split; [reflexivity|]].
     + intros k'. rewrite spec_map_app. simpl. destruct (k' =? k); [reflexivity|apply Hdb].
     + intros k' id Hin. apply filter_In in Hin. destruct Hin as [Hin Hne]. simpl in Hne.
@@ -52,5 +54,11 @@ Proof.
   - split; [split|split; reflexivity].
     + intros k'. rewrite spec_map_app. apply Hdb.
     + intros k' id [].
+  - split; [split|split; [reflexivity|split]].
+    + intros k'. rewrite spec_map_app. apply Hdb.
+    + intros k' id' Hin. rewrite spec_map_app. apply filter_In in Hin. destruct Hin as [Hin _]. eapply Hob; eauto.
+    + intros k Hin. apply filter_In in Hin. destruct Hin as [_ Hne]. simpl in Hne. rewrite N.eqb_refl in Hne. discriminate.
+    + intros k id' Hne. rewrite filter_In. simpl. split; [tauto|]. intros Hin. split; [exact Hin|].
+      apply negb_true_iff. apply N.eqb_neq. exact Hne.
 Qed.
 Print Assumptions sstep_refines.
